@@ -663,8 +663,9 @@ def t_eigh(interp, t, UPLO="L"):
 
 
 @prim("torch.cdist")
-def t_cdist(interp, a, b, compute_mode=None):
-    return mk("cdist", [a, b], [a.shape_l[0], b.shape_l[0]], a.dtype)
+def t_cdist(interp, a, b, p=2.0, compute_mode="use_mm_for_euclid_dist_if_necessary"):
+    # the compute mode is part of the term: the matmul-based formula is a different (less accurate) function
+    return mk("cdist", [a, b, as_real(p), compute_mode], [a.shape_l[0], b.shape_l[0]], a.dtype)
 
 
 @prim("torch.topk")
